@@ -107,6 +107,9 @@ CASES = [
     C('lookup_all', lambda cx: dict(d=cx.val('d', TMap(TInt, TInt)), xs=cx.val('xs', IS)),
       good=["len(result) == len(xs)", "forall(lambda j: implies(0 <= j and j < len(xs), result[j] == d[xs[j]]))"], bad=["len(result) == 0"],
       raises={'KeyError': ["exists(lambda j: 0 <= j and j < len(xs) and not (xs[j] in d))"]}),
+    C('positive_items', lambda cx: dict(d=cx.val('d', TMap(TInt, TInt))),
+      good=["forall(lambda k: (k in result) == (k in d and d[k] > 0))", "forall(lambda k: implies(k in result, result[k] == d[k] + 1))"],
+      bad=["forall(lambda k: (k in result) == (k in d))", "forall(lambda k: implies(k in result, result[k] == d[k]))"]),
 ]
 # exceptions that must be seen: (case, exception) - without the raises clause the safety obligation has to fail
 MUST_RAISE = [('lookup_all', 'KeyError'), ('pop_middle', 'IndexError')]
